@@ -352,3 +352,34 @@ func VerifH_C08_second_candidate_during_upgrade() {
 		verif.Assert(w.events.count("upgrade") == 1 && w.sock.Transport() == transports.Transport(cand), "the session is upgraded exactly once, to the first candidate")
 	})
 }
+
+// VerifH_C08_candidate_dead_on_arrival: the candidate's connection is already gone when the
+// session starts entertaining it (its reader reported the close before anybody listened):
+// nobody will ever tell the session, so the upgrade timeout is what ends the attempt -- after
+// it the session is no longer upgrading, still on its transport, and a later candidate that
+// follows the protocol completes the switch.
+func VerifH_C08_candidate_dead_on_arrival() {
+	verif.RunTimed(func() {
+		w := newUpWorld()
+		main0 := w.ft
+		dead := w.candidate()
+		if verif.Bool() {
+			dead.OnClose() // closed before MaybeUpgrade attaches its listeners
+		} else {
+			dead.holdClose = true
+			dead.Close() // closing, never completes
+		}
+		w.sock.MaybeUpgrade(dead)
+		verif.Assert(w.sock.Upgrading(), "the attempt is being entertained")
+		verif.SleepUntil(verif.Now() + int64(w.ps.Opts().UpgradeTimeout()))
+		verif.Settle()
+		verif.Assert(!w.sock.Upgrading() && !w.sock.Upgraded(), "after the upgrade timeout the session is no longer upgrading")
+		verif.Assert(w.sock.Transport() == transports.Transport(main0) && w.sock.ReadyState() == "open", "and is untouched otherwise")
+		cand := w.candidate()
+		w.sock.MaybeUpgrade(cand)
+		cand.OnPacket(probePing())
+		cand.complete()
+		cand.OnPacket(&packet.Packet{Type: packet.UPGRADE, Data: types.NewStringBufferString("")})
+		verif.Assert(w.sock.Upgraded() && w.sock.Transport() == transports.Transport(cand), "a later candidate that follows the protocol completes the switch")
+	})
+}
